@@ -348,11 +348,25 @@ func canonicaliseComparisons(fns []*ssa.Function) {
 				_, yc := bo.Y.(*ssa.Const)
 				// the constant goes right; so does the bound of a counting loop (`n > i` is `i < n`)
 				turn := (xc && !yc) || (!xc && !yc && isInduction(stripConv(bo.Y)) && !isInduction(stripConv(bo.X)))
-				if !turn {
-					continue
+				if turn {
+					if m := mirrored(bo); m != nil {
+						bo.Op, bo.X, bo.Y = m.Op, m.X, m.Y
+					}
 				}
-				if m := mirrored(bo); m != nil {
-					bo.Op, bo.X, bo.Y = m.Op, m.X, m.Y
+				// a length is never negative: `len(x) >= 1` and `len(x) != 0` are `len(x) > 0`, `len(x) < 1` and
+				// `len(x) <= 0` are `len(x) == 0` (the spellings the repository itself uses)
+				if _, isLen := lenArg(bo.X); isLen {
+					if k, isK := bo.Y.(*ssa.Const); isK {
+						if n, okN := constInt(k); okN {
+							zero := ssa.NewConst(constant.MakeInt64(0), k.Type())
+							switch {
+							case (bo.Op == token.GEQ && n == 1) || (bo.Op == token.NEQ && n == 0):
+								bo.Op, bo.Y = token.GTR, zero
+							case (bo.Op == token.LSS && n == 1) || (bo.Op == token.LEQ && n == 0):
+								bo.Op, bo.Y = token.EQL, zero
+							}
+						}
+					}
 				}
 			}
 		}
